@@ -114,18 +114,20 @@ type doqOpt struct {
 	callers   int
 	ids       []uint16
 	ctxMode   []int
-	srvMenu   []string // answer, answer-foreign-id, reset, silent
+	srvMenu   []string // answer, answer-foreign-id, reset, silent, answer-no-fin, answer-then-reset
 	closer    bool
+	c02       bool // judge C02: a reply delivered while the caller's context was live is what the call returns, then
 }
 
 func doqScenario(name string, o doqOpt, d int) vr.Scenario {
 	var calls []*call
 	var conn *fqConn
 	var answers map[int][]byte
+	var answeredAt map[int]time.Duration
 	var finished bool
 	body := func() {
 		finished = false
-		calls, answers = nil, map[int][]byte{}
+		calls, answers, answeredAt = nil, map[int][]byte{}, map[int]time.Duration{}
 		ctx, cancel := vs.WithCancel(bg)
 		conn = &fqConn{ctx: ctx, cancel: cancel}
 		dc := NewQuicDnsConn(conn)
@@ -165,7 +167,7 @@ func doqScenario(name string, o doqOpt, d int) vr.Scenario {
 				case "answer":
 					nonce++
 					a := fk.Answer(msgs[0], nonce)
-					answers[s.idx] = a
+					answers[s.idx], answeredAt[s.idx] = a, vs.Elapsed()
 					s.in = append(s.in, fk.Frame(a)...)
 					s.inEOF = true
 				case "answer-foreign-id":
@@ -174,6 +176,19 @@ func doqScenario(name string, o doqOpt, d int) vr.Scenario {
 					answers[s.idx] = a
 					s.in = append(s.in, fk.Frame(a)...)
 					s.inEOF = true
+				case "answer-no-fin":
+					// the whole reply is here, the FIN is not (delayed for good)
+					nonce++
+					a := fk.Answer(msgs[0], nonce)
+					answers[s.idx], answeredAt[s.idx] = a, vs.Elapsed()
+					s.in = append(s.in, fk.Frame(a)...)
+				case "answer-then-reset":
+					// the whole reply, then the connection breaks (CONNECTION_CLOSE / reset right after it)
+					nonce++
+					a := fk.Answer(msgs[0], nonce)
+					answers[s.idx], answeredAt[s.idx] = a, vs.Elapsed()
+					s.in = append(s.in, fk.Frame(a)...)
+					s.rdErr = errors.New("connection closed by peer")
 				case "reset":
 					s.rdErr = errors.New("stream reset by peer")
 				case "silent":
@@ -261,6 +276,20 @@ func doqScenario(name string, o doqOpt, d int) vr.Scenario {
 					return V("foreign-reply", fmt.Sprintf("call %d returned bytes that are not the server's answer to its query (question in reply: %q)", c.idx, fk.QName(c.resp)))
 				}
 			}
+			if at, answered := answeredAt[c.streamIdx]; o.c02 && answered && x.EarlyTimers == 0 && !c.cancelled {
+				// C02: the complete reply was on the stream at `at`, the caller's context was live
+				live := true
+				if c.idx < len(o.ctxMode) && o.ctxMode[c.idx] == 1 && at >= c.startAt+3*time.Second {
+					live = false
+				}
+				switch {
+				case !live:
+				case c.err != nil:
+					return V("lost:"+errStr(c.err), fmt.Sprintf("call %d: the complete reply was delivered on its stream at %v (deadline not reached), yet the call returned %q at %v", c.idx, at, c.err, c.retAt))
+				case c.retAt != at:
+					return V("late", fmt.Sprintf("call %d: the complete reply was delivered at %v, the call returned it only at %v", c.idx, at, c.retAt))
+				}
+			}
 			if x.EarlyTimers == 0 && c.cancelled && c.err != nil && c.retAt > c.cancelAt {
 				return V("late-after-cancel", fmt.Sprintf("call %d cancelled at %v returned at %v", c.idx, c.cancelAt, c.retAt))
 			}
@@ -289,4 +318,22 @@ func TestVerifC01q(t *testing.T) {
 		doqScenario("doq-c2-closer", doqOpt{callers: 2, srvMenu: []string{"answer", "silent"}, ctxMode: []int{1, 1}, closer: true}, d),
 	}
 	vr.RunScenarios("C01", scs)
+}
+
+// C02 over DoQ: a reply that is completely on the stream before the caller's
+// deadline is returned at once, whether the stream's FIN follows, never comes,
+// or the connection breaks right after the reply.
+func TestVerifC02q(t *testing.T) {
+	e := vr.GetEnv()
+	d := 2
+	if e.Tier == "thorough" {
+		d = 3
+	}
+	all := []string{"answer", "answer-no-fin", "answer-then-reset"}
+	scs := []vr.Scenario{
+		doqScenario("doq-c1-reply-then", doqOpt{callers: 1, srvMenu: all, ctxMode: []int{1}, c02: true}, d+1),
+		doqScenario("doq-c2-reply-then", doqOpt{callers: 2, ids: []uint16{0, 0}, srvMenu: all, ctxMode: []int{1, 0}, c02: true}, d),
+		doqScenario("doq-c2-reply-then-closer", doqOpt{callers: 2, srvMenu: all, ctxMode: []int{1, 1}, closer: true, c02: true}, d-1),
+	}
+	vr.RunScenarios("C02", scs)
 }
